@@ -102,6 +102,19 @@ def _terminates_after(stmt, loop: ast.For) -> bool:
   return False
 
 
+def _sequence_backed(mf, group):
+  """The view's backing field is a list (or the sibling chain): equal items can occur more than once."""
+  if group == "children":
+    return True
+  for c in mf.classes:
+    init = c.methods.get("__init__")
+    for n in own_nodes(init.node) if init is not None else ():
+      tgt = n.targets[0] if isinstance(n, ast.Assign) and len(n.targets) == 1 else (n.target if isinstance(n, ast.AnnAssign) else None)
+      if isinstance(tgt, ast.Attribute) and tgt.attr == group and isinstance(getattr(n, "value", None), (ast.List, ast.ListComp)):
+        return True
+  return False
+
+
 def _stmt_of(node):
   while node is not None and not isinstance(node, ast.stmt):
     node = parent(node)
@@ -129,6 +142,14 @@ def check_live(ctx, funcs: typing.Iterable[FuncInfo], rule="LIVE", shared=None):
       it = loop.iter
       view = None  # (recv_text, group, kind)
       if isinstance(it, ast.Call) and isinstance(it.func, ast.Name) and it.func.id in SAFE_WRAPPERS:
+        # a set is a snapshot too, but of a sequence view it drops equal items and their order
+        if it.func.id in ("set", "frozenset") and len(it.args) == 1:
+          inner = it.args[0]
+          if isinstance(inner, ast.Call) and isinstance(inner.func, ast.Attribute) and inner.func.attr in mf.views \
+              and _sequence_backed(mf, mf.views[inner.func.attr]) and inner.func.attr != "__iter__":
+            ctx.bad(rule, f"{f.qualname}|for {unparse(loop.target)} in {unparse(it)}|lossy snapshot", ctx.where(f.module, loop),
+                    f"`{unparse(it)}` snapshots a sequence view as a set: items that compare equal collapse into one and the order is lost, "
+                    f"so the loop body runs once per distinct value instead of once per item. Iterate over list(...) instead.")
         continue
       if isinstance(it, ast.Call) and isinstance(it.func, ast.Name) and it.func.id in ("iter", "reversed", "enumerate") and it.args:
         inner = it.args[0]
